@@ -474,6 +474,7 @@ def invert_unit(ctx, src):
                       Rule(r'\*this = Matrix4<T>\(\);', 'Matrix4_identity(self);', count=1, regex=True),
                       Rule('return *this;', 'return self;', count=1),
                       # entry arithmetic -> the uninterpreted operations (type-directed: the operands are matrix entries / doubles)
+                      Rule(r'(?<![\w.>])(?:std::)?f?abs\(', 'UF_FABS(', count=None, regex=True),
                       Rule(r'(%s) /= (\w+);' % ENTRY, r'\1 = UF_DIV(\1, \2);', count='+', regex=True),
                       Rule(r'(%s) \+= (%s) \* (\w+);' % (ENTRY, ENTRY), r'\1 = UF_ADD(\1, UF_MUL(\2, \3));', count='+', regex=True),
                       Fn20(no_arith)])
